@@ -34,5 +34,8 @@ def run(prog, rep, tier):
     apply(rep, "R7", "a word that produces no result for one input (unsupported operand, failed conversion) goes on to the next input instead of ending the stream",
           ([i for i in r7[0] if i[0].startswith(words)], [f for f in r7[1] if f["key"].startswith(words)]), 60)
     import r_pure
+    q = r_pure.q1(prog)
+    apply(rep, "Q1", "word implementations keep no state of their own: no mutable members, no writes to static-storage variables (incl. function-local statics), no parameter-dependent local statics - a word's result depends only on its operands, not on what was evaluated before",
+          ([i for i in q[0] if i[0].startswith(("Q1i:", "Q1ii", "Q1iii"))], [f for f in q[1] if f["key"].startswith(("Q1i:", "Q1ii", "Q1iii"))]), 3)
     apply(rep, "Q4c", "copies of a sequence (dup, over, reading a name) never alias storage that `add` mutates in place: word results depend on the values, not on how the stack was built", r_pure.q4c(prog), 3)
     maybe_mutants("C11", rep, tier)
